@@ -230,3 +230,20 @@ Proof.
   destruct (index_rows c0 d101 _) as [res|] eqn:Er; [|vm_compute in Er; discriminate].
   exists res. split; [reflexivity|]. split; [reflexivity|]. vm_compute in Er. injection Er as <-. vm_compute. reflexivity.
 Qed.
+
+(* traceql_correct_single_portion: its hypotheses hold of the third of three portions with one cached winner (t1), limit 1, and the
+   conclusion is computed: of the matching traces t1 (time 5) and t2 (time 7) this portion sees those whose hash class is 2 or that are
+   cached; hash_toy "t2" mod 3 = 2, so both are visible (t3, class 0, is not) and the newer one is returned. *)
+Definition c0p : ctx :=
+  {| from_ns := 0; to_ns := 10; from_date := "d"; to_date := "d"; ffd_from := "d"; ffd_to := "d";
+     limit := 1; is_cluster := false; rf_max := 3; rf_i := 2; cached := ["t1"];
+     attrs_table := "t"; attrs_dist_table := "td"; traces_table := "tr"; traces_dist_table := "trd"; kv_dist_table := "kv" |}.
+Example portion_hyps :
+  rf_ok c0p = true /\ map (fun t => in_portion_g hash_toy c0p t) ["t1"; "t2"; "t3"] = [true; true; false]
+  /\ exists s, plan (q1 e0 AONone) MSearch c0p 2 = Ok s /\ index_rows c0p d0 s = Some [("t2", ["s1"])]
+               /\ result_ok c0p (traceql_sem re_toy float_toy false c0p (visible hash_toy c0p d0) (q1 e0 AONone)) [("t2", ["s1"])] = true.
+Proof.
+  split; [vm_compute; reflexivity|]. split; [vm_compute; reflexivity|].
+  destruct (plan (q1 e0 AONone) MSearch c0p 2) as [s| |] eqn:E; [|vm_compute in E; discriminate|vm_compute in E; discriminate].
+  exists s. split; [reflexivity|]. vm_compute in E. injection E as <-. vm_compute. split; reflexivity.
+Qed.
